@@ -33,13 +33,51 @@ def is_count_place(F, pl):
 
 
 def receiver_is_count(F, B, t):
-    """The atomic call's receiver is `&(*inner).count`."""
+    """The atomic call's receiver is `&(*inner).count`, directly or through a local accessor that returns that reference."""
     if not t["args"]:
         return False
-    o = B.origin(t["args"][0])
-    if o.get("kind") == "rvalue" and o["rv"]["k"] == "ref":
+    return _is_count_ref(F, B, B.origin(t["args"][0]), 0)
+
+
+def _is_count_ref(F, B, o, depth):
+    if depth > 4:
+        return False
+    if o.get("kind") == "rvalue" and o["rv"]["k"] in ("ref", "rawptr"):
         return is_count_place(F, o["rv"]["place"])
+    if o.get("kind") == "call":
+        key = callee_of(o["term"])
+        return returns_count_ref(F, key, depth + 1)
     return False
+
+
+def returns_count_ref(F, key, depth=0):
+    """Local function all of whose returns are a reference to the COUNT field (a private `fn refcount(&self) -> &AtomicUsize`)."""
+    cache = F.__dict__.setdefault("_count_accessors", {})
+    if key in cache:
+        return cache[key]
+    cache[key] = False
+    b = F.body(key)
+    if b is not None and b["kind"] in ("Fn", "AssocFn"):
+        ot = F.ty(b["output"])
+        if ot["k"] in ("ref", "ptr") and F.ty(ot["t"])["k"] == "adt" and F.ty(ot["t"])["path"].startswith("core::sync::atomic::Atomic"):
+            B2 = cfg.Body(b)
+            ds = B2.defs().get(0, [])
+            ok = bool(ds)
+            for d in ds:
+                if d[0] == "call":
+                    ok = ok and returns_count_ref(F, callee_of(d[2]), depth + 1)
+                else:
+                    rv = d[3]
+                    if rv["k"] in ("ref", "rawptr") and rv["place"]["p"] == ["deref"]:
+                        ok = ok and _is_count_ref(F, B2, B2.origin_local(rv["place"]["l"]), depth + 1)  # reborrow
+                    elif rv["k"] in ("ref", "rawptr"):
+                        ok = ok and is_count_place(F, rv["place"])
+                    elif rv["k"] == "use":
+                        ok = ok and _is_count_ref(F, B2, B2.origin(rv["op"]), depth + 1)
+                    else:
+                        ok = False
+            cache[key] = ok
+    return cache[key]
 
 
 def atomic_class(t):
@@ -89,4 +127,4 @@ def compare_with_const(B, switch_term):
     truth = {}
     for tgt, tv in B.switch_truth(switch_term).items():
         truth[tgt] = tv != c["neg"]
-    return {"op": op, "src": src, "k": k, "truth": truth}
+    return {"op": op, "src": src, "k": k, "truth": truth, "const_op": c["b"] if src == la and vb is not None and not (lb is not None and vb is None) else c["a"]}
